@@ -7,14 +7,16 @@ Import ListNotations.
 Local Open Scope Z_scope.
 
 (* the documented domain of parallel_for (see ASSUMPTIONS of props/C12.py) *)
-Definition pf_dom (c : pfcfg) : Prop :=
+Definition pf_dom_wide (c : pfcfg) : Prop :=
   (pf_kn c < 8)%nat /\
   let k := kind_of (pf_kn c) in
   in_kind k (pf_s c) /\ in_kind k (pf_e c) /\
   (ik_signed k = true -> 32 <= ik_w k -> pf_e c - pf_s c <= kmax k) /\
   0 <= pf_N c < 2 ^ 31 /\ 0 <= pf_maxThreads c < 2 ^ 32 /\ 0 <= pf_minItems c < 2 ^ 32 /\ 0 <= pf_gran c < 2 ^ 32 /\
-  2 * (pf_e c - pf_s c) + 64 * (pf_N c + 1) + pf_gran c < 2 ^ 63 /\
-  (pf_chunk c = 0 \/ pf_chunk c = kmax k \/ (1 <= pf_chunk c < kmax k /\ pf_e c - pf_s c + pf_chunk c < 2 ^ 63)).
+  2 * (pf_e c - pf_s c) + 64 * (pf_N c + 1) + pf_gran c + 1 < 2 ^ 63 /\
+  (pf_chunk c = 0 \/ pf_chunk c = kmax k \/ 1 <= pf_chunk c < kmax k).
+(* ... minus the configurations of the finding explicit-chunk-overflow-64bit (size + explicit chunk overflows size_type) *)
+Definition pf_dom (c : pfcfg) : Prop := pf_dom_wide c /\ c12_chunkovf_domain c = false.
 
 Lemma kind_of_wf kn : (kn < 8)%nat -> wf_kind (kind_of kn) /\ ik_w (kind_of kn) <= 64.
 Proof.
@@ -65,6 +67,7 @@ Record par_facts (c : pfcfg) : Prop := PFA {
   pfa_div : (d_g (pf_decide c) | d_trimmedEnd (pf_decide c) - pf_s c);
   pfa_tail_t : d_hasTail (pf_decide c) = true -> d_trimmedEnd (pf_decide c) < pf_e c;
   pfa_tail_f : d_hasTail (pf_decide c) = false -> d_trimmedEnd (pf_decide c) = pf_e c;
+  pfa_rem : pf_e c - d_trimmedEnd (pf_decide c) < d_g (pf_decide c);
   pfa_N : 1 <= pf_N c;
   pfa_mt : 2 <= d_maxThreads (pf_decide c);
   pfa_mi : d_minItems (pf_decide c) = Z.max 1 (pf_minItems c);
@@ -80,7 +83,7 @@ Lemma decide_inv c : pf_dom c ->
                    (d_path (pf_decide c) = PAdaptive /\ pf_chunk c = 0) \/
                    (d_path (pf_decide c) = PDynamic /\ pf_chunk c <> 0 /\ pf_chunk c <> kmax (kind_of (pf_kn c))))).
 Proof.
-  intros (Hkn & Hs & He & Hub & HN & HmT & Hmi & Hgr & Hfit & Hch).
+  intros ((Hkn & Hs & He & Hub & HN & HmT & Hmi & Hgr & Hfit & Hch) & Hovf).
   destruct (kind_of_wf _ Hkn) as [Hwf Hw64].
   pose proof (pf_decide_eq c Hkn) as D. unfold m_decide, m_range_empty in D.
   destruct (pf_e c <=? pf_s c) eqn:E0; [apply Z.leb_le in E0; left; split; [exact E0 | rewrite D; reflexivity] | apply Z.leb_gt in E0].
